@@ -31,6 +31,8 @@ func (s *Sim) check(what string) {
 		c := cur.chans[scid]
 		o, had := old.chans[scid]
 		if !had {
+			delete(s.prematurePending, fmt.Sprintf("%d/0", scid))
+			delete(s.prematurePending, fmt.Sprintf("%d/1", scid))
 			s.justifyChanAdd(c, what)
 			o = &pChan{} // policies compared against "none"
 		} else if !bytes.Equal(o.wire, c.wire) || o.err != c.err || o.capacity != c.capacity || o.outpoint != c.outpoint {
@@ -83,7 +85,20 @@ func (s *Sim) check(what string) {
 			}
 			r.Count("graph_shell_node_added")
 		case n.wire == nil && had:
-			r.Fail("node-downgraded", "%s: node %s lost its announcement", what, short(key[:]))
+			// A node whose channels were all closed is pruned from the
+			// graph; if a new channel of that node arrives in the same
+			// step it comes back as a shell. Legitimate only if none of
+			// its previous channels survived.
+			for _, oscid := range old.scids() {
+				oc := old.chans[oscid]
+				if (oc.node[0] == key || oc.node[1] == key) && cur.chans[oscid] != nil {
+					r.Fail("node-downgraded", "%s: node %s lost its announcement although its channel %s stayed in the graph", what, short(key[:]), scidStr(oscid))
+				}
+			}
+			if !cur.hasEndpoint(key) {
+				r.Fail("node-unjustified", "%s: node %s is in the graph without any channel", what, short(key[:]))
+			}
+			r.Count("probe_node_pruned_and_recreated")
 		default:
 			var prev *pNode
 			if had {
